@@ -185,6 +185,7 @@ def run(chk: Check):
                 chk.fail(f"eps=0 but action {t[3]} with estimate {q[t[3]]!r} chosen, max is {max(q)!r}", {"case": {"script": s}})
     chk.count("determinism_pairs", ndet)
     reseed_midlife(chk, rng)
+    env_across_sessions(chk, rng)
 
 
 def reseed_midlife(chk: Check, rng):
@@ -216,6 +217,43 @@ def reseed_midlife(chk: Check, rng):
             which = "an agent that had already answered policy calls" if outs[0] != outs[1] else "an agent constructed with that seed"
             chk.fail(f"after random_state = {s_new} and the same rewards, {which} chooses differently from a fresh agent given the same seed: {outs[0][:8]} / {outs[1][:8]} / {outs[2][:8]}",
                      {"case": {"kind": "reseed", "n": n, "eps": eps, "alpha": alpha, "seed": s_new, "lessons": lessons}})
+
+
+def env_across_sessions(chk: Check, rng):
+    """the environment as the RL scheduler drives it over SEVERAL sessions (outcomes through step(), an end-of-session marker, reset() at the next
+    session start): the reference best is the best loss of the whole calibration — it is lowered by improvements only and survives the end of a session"""
+    from black_it.schedulers.rl.envs.mab import MABCalibrationEnv
+
+    for it in range(40 if chk.tier == "quick" else 800):
+        n = rng.randint(1, 5)
+        env = MABCalibrationEnv(n)
+        env.reset()
+        ref = rng.choice([1.0, 10.0, 0.3, 7.5, 123.0])
+        env._curr_best_loss = ref                       # what the scheduler does after the bootstrap batch
+        trace, bad = [], None
+        for session in range(rng.randint(2, 4)):
+            if session > 0:
+                env.reset()                             # start of the next session (the agent thread calls it)
+            for _ in range(rng.randint(0, 3)):
+                best = min(ref, ref * rng.choice([1.0, 0.5, 0.9, 0.999, 1.0, 0.25]))      # the scheduler reports the best loss so far: never above the reference
+                env._in_queue.put((None, best))
+                _, r, _, ended, _ = env.step(np.int64(rng.randrange(n)))
+                env._out_queue.get_nowait()
+                want = (ref - best) / ref if best < ref else 0.0
+                trace.append((session, ref, best, float(r), want))
+                if ended or f2h(float(r)) != f2h(float(want)) or env._curr_best_loss != min(ref, best):
+                    bad = bad or (session, ref, best, float(r), want, env._curr_best_loss)
+                ref = min(ref, best)
+            env._in_queue.put(None)                     # end of the session
+            _, r, _, ended, _ = env.step(np.int64(0))
+            env._out_queue.get_nowait()
+            if not ended or r != 0.0:
+                bad = bad or (session, "end-of-session marker", None, float(r), 0.0, env._curr_best_loss)
+        chk.case(["env-sessions", n, [t[:3] for t in trace]], len({t[0] for t in trace}) >= 2, {"sessions": len({t[0] for t in trace}), "outcomes": len(trace)})
+        chk.count("env:several_sessions")
+        if bad:
+            chk.fail(f"environment over several sessions: in session {bad[0]} with reference {bad[1]!r} the outcome {bad[2]!r} was rewarded {bad[3]!r} (rule: {bad[4]!r}); reference afterwards {bad[5]!r}",
+                     {"case": {"kind": "env_sessions", "trace": trace}})
 
 
 def replay(path: Path) -> int:
